@@ -219,7 +219,7 @@ def run(ctx):
                 "every position reproduces it and contains the entry; (iii) the same edits on the transaction lists of "
                 "real blocks with the header kept are refused. distinct = lists + edits enumerated"
                 % (a, L, "" if ctx.quick else " and over 2 ids with length 1..16", N),
-        'samples': [{'list': [0, 1, 1], 'vs': [0, 1]}, {'edit': 'append-copy-of-last', 'n': 3}],
+        'samples': [{'lists_over_alphabet': a, 'first': [0], 'last': [a - 1] * L}, {'length': lens[0], 'edits': [e[0] for e in edits([1, 2, 3], 9)][:8]}],
         'exhaustive': True, 'lists': nlists, 'edits': ne, 'proofs': npf, 'block_edits': nb,
     })
 
